@@ -8,5 +8,5 @@ CONSTANTS
   TreesOnly = FALSE
   WhichKinds <- Kinds
   BrokenLimit = FALSE
-INVARIANTS RoundTrip RoundTripUpToGrid RoundTripIff SquareInference InEmitExact WrongStyleRejected EquivExact BagNotSet
+INVARIANTS RoundTrip RoundTripUpToGrid RoundTripIff InEmitExact WrongStyleRejected EquivExact BagNotSet
 CHECK_DEADLOCK FALSE
